@@ -109,46 +109,46 @@ theorem putSc_inv {T} {ms : Mid} (hI : Inv T ms) (hd : TDisj T) {id : Id} (hT : 
     (hf : (scNew ms id f).e.id = id) (hok : ScOk ms.base ms.spends (scNew ms id f)) : Inv T (ms.putSc id f) := by
   constructor
   · exact putSc_struct hI.struct hd hT f hf
-  · intro d hm; rw [putSc_base, putSc_spends]
+  · intro d hm; rw [putSc_base_c1, putSc_spends_c1]
     rcases putSc_mem hI.struct hd hT f hm with h | h
     · exact hI.sc d h
     · rw [h]; exact hok
-  · rw [putSc_base, putSc_spends, putSc_sfes]; exact hI.sf
-  · rw [putSc_base, putSc_spends, putSc_fces]; exact hI.fc1
-  · rw [putSc_base, putSc_spends, putSc_v2fces]; exact hI.fc2
+  · rw [putSc_base_c1, putSc_spends_c1, putSc_sfes]; exact hI.sf
+  · rw [putSc_base_c1, putSc_spends_c1, putSc_fces]; exact hI.fc1
+  · rw [putSc_base_c1, putSc_spends_c1, putSc_v2fces]; exact hI.fc2
 
 theorem putSf_inv {T} {ms : Mid} (hI : Inv T ms) (hd : TDisj T) {id : Id} (hT : T .sf id) (f : SfDiff → SfDiff)
     (hf : (sfNew ms id f).e.id = id) (hok : SfOk ms.base ms.spends (sfNew ms id f)) : Inv T (ms.putSf id f) := by
   constructor
   · exact putSf_struct hI.struct hd hT f hf
-  · rw [putSf_base, putSf_spends, putSf_sces]; exact hI.sc
-  · intro d hm; rw [putSf_base, putSf_spends]
+  · rw [putSf_base_c1, putSf_spends_c1, putSf_sces]; exact hI.sc
+  · intro d hm; rw [putSf_base_c1, putSf_spends_c1]
     rcases putSf_mem hI.struct hd hT f hm with h | h
     · exact hI.sf d h
     · rw [h]; exact hok
-  · rw [putSf_base, putSf_spends, putSf_fces]; exact hI.fc1
-  · rw [putSf_base, putSf_spends, putSf_v2fces]; exact hI.fc2
+  · rw [putSf_base_c1, putSf_spends_c1, putSf_fces]; exact hI.fc1
+  · rw [putSf_base_c1, putSf_spends_c1, putSf_v2fces]; exact hI.fc2
 
 theorem putFc1_inv {T} {ms : Mid} (hI : Inv T ms) (hd : TDisj T) {id : Id} (hT : T .fc1 id) (f : Fc1Diff → Fc1Diff)
     (hf : (fc1New ms id f).e.id = id) (hok : Fc1Ok ms.base ms.spends (fc1New ms id f)) : Inv T (ms.putFc1 id f) := by
   constructor
   · exact putFc1_struct hI.struct hd hT f hf
-  · rw [putFc1_base, putFc1_spends, putFc1_sces]; exact hI.sc
-  · rw [putFc1_base, putFc1_spends, putFc1_sfes]; exact hI.sf
-  · intro d hm; rw [putFc1_base, putFc1_spends]
+  · rw [putFc1_base_c1, putFc1_spends_c1, putFc1_sces_c1]; exact hI.sc
+  · rw [putFc1_base_c1, putFc1_spends_c1, putFc1_sfes]; exact hI.sf
+  · intro d hm; rw [putFc1_base_c1, putFc1_spends_c1]
     rcases putFc1_mem hI.struct hd hT f hm with h | h
     · exact hI.fc1 d h
     · rw [h]; exact hok
-  · rw [putFc1_base, putFc1_spends, putFc1_v2fces]; exact hI.fc2
+  · rw [putFc1_base_c1, putFc1_spends_c1, putFc1_v2fces]; exact hI.fc2
 
 theorem putFc2_inv {T} {ms : Mid} (hI : Inv T ms) (hd : TDisj T) {id : Id} (hT : T .fc2 id) (f : Fc2Diff → Fc2Diff)
     (hf : (fc2New ms id f).e.id = id) (hok : Fc2Ok ms.base ms.spends (fc2New ms id f)) : Inv T (ms.putFc2 id f) := by
   constructor
   · exact putFc2_struct hI.struct hd hT f hf
-  · rw [putFc2_base, putFc2_spends, putFc2_sces]; exact hI.sc
-  · rw [putFc2_base, putFc2_spends, putFc2_sfes]; exact hI.sf
-  · rw [putFc2_base, putFc2_spends, putFc2_fces]; exact hI.fc1
-  · intro d hm; rw [putFc2_base, putFc2_spends]
+  · rw [putFc2_base_c1, putFc2_spends_c1, putFc2_sces_c1]; exact hI.sc
+  · rw [putFc2_base_c1, putFc2_spends_c1, putFc2_sfes]; exact hI.sf
+  · rw [putFc2_base_c1, putFc2_spends_c1, putFc2_fces]; exact hI.fc1
+  · intro d hm; rw [putFc2_base_c1, putFc2_spends_c1]
     rcases putFc2_mem hI.struct hd hT f hm with h | h
     · exact hI.fc2 d h
     · rw [h]; exact hok
@@ -161,17 +161,17 @@ theorem putSc_inv' {T} {ms : Mid} (hI : Inv T ms) (hd : TDisj T) {id : Id} (hT :
   have h0 := putSc_struct hI.struct hd hT f hf
   constructor
   · exact h0.same rfl (fun k => by cases k <;> rfl)
-  · intro d hm; show ScOk (ms.putSc id f).base sp' d; rw [putSc_base]
+  · intro d hm; show ScOk (ms.putSc id f).base sp' d; rw [putSc_base_c1]
     rcases putSc_mem hI.struct hd hT f hm with h | h
     · exact (hI.sc d h).mono hsub
     · rw [h]; exact hok
-  · intro d hm; show SfOk (ms.putSc id f).base sp' d; rw [putSc_base]
+  · intro d hm; show SfOk (ms.putSc id f).base sp' d; rw [putSc_base_c1]
     have hm' : d ∈ (ms.putSc id f).sfes := hm
     rw [putSc_sfes] at hm'; exact (hI.sf d hm').mono hsub
-  · intro d hm; show Fc1Ok (ms.putSc id f).base sp' d; rw [putSc_base]
+  · intro d hm; show Fc1Ok (ms.putSc id f).base sp' d; rw [putSc_base_c1]
     have hm' : d ∈ (ms.putSc id f).fces := hm
     rw [putSc_fces] at hm'; exact (hI.fc1 d hm').mono hsub
-  · intro d hm; show Fc2Ok (ms.putSc id f).base sp' d; rw [putSc_base]
+  · intro d hm; show Fc2Ok (ms.putSc id f).base sp' d; rw [putSc_base_c1]
     have hm' : d ∈ (ms.putSc id f).v2fces := hm
     rw [putSc_v2fces] at hm'; exact (hI.fc2 d hm').mono hsub
 
@@ -181,17 +181,17 @@ theorem putSf_inv' {T} {ms : Mid} (hI : Inv T ms) (hd : TDisj T) {id : Id} (hT :
   have h0 := putSf_struct hI.struct hd hT f hf
   constructor
   · exact h0.same rfl (fun k => by cases k <;> rfl)
-  · intro d hm; show ScOk (ms.putSf id f).base sp' d; rw [putSf_base]
+  · intro d hm; show ScOk (ms.putSf id f).base sp' d; rw [putSf_base_c1]
     have hm' : d ∈ (ms.putSf id f).sces := hm
     rw [putSf_sces] at hm'; exact (hI.sc d hm').mono hsub
-  · intro d hm; show SfOk (ms.putSf id f).base sp' d; rw [putSf_base]
+  · intro d hm; show SfOk (ms.putSf id f).base sp' d; rw [putSf_base_c1]
     rcases putSf_mem hI.struct hd hT f hm with h | h
     · exact (hI.sf d h).mono hsub
     · rw [h]; exact hok
-  · intro d hm; show Fc1Ok (ms.putSf id f).base sp' d; rw [putSf_base]
+  · intro d hm; show Fc1Ok (ms.putSf id f).base sp' d; rw [putSf_base_c1]
     have hm' : d ∈ (ms.putSf id f).fces := hm
     rw [putSf_fces] at hm'; exact (hI.fc1 d hm').mono hsub
-  · intro d hm; show Fc2Ok (ms.putSf id f).base sp' d; rw [putSf_base]
+  · intro d hm; show Fc2Ok (ms.putSf id f).base sp' d; rw [putSf_base_c1]
     have hm' : d ∈ (ms.putSf id f).v2fces := hm
     rw [putSf_v2fces] at hm'; exact (hI.fc2 d hm').mono hsub
 
@@ -201,17 +201,17 @@ theorem putFc1_inv' {T} {ms : Mid} (hI : Inv T ms) (hd : TDisj T) {id : Id} (hT 
   have h0 := putFc1_struct hI.struct hd hT f hf
   constructor
   · exact h0.same rfl (fun k => by cases k <;> rfl)
-  · intro d hm; show ScOk (ms.putFc1 id f).base sp' d; rw [putFc1_base]
+  · intro d hm; show ScOk (ms.putFc1 id f).base sp' d; rw [putFc1_base_c1]
     have hm' : d ∈ (ms.putFc1 id f).sces := hm
-    rw [putFc1_sces] at hm'; exact (hI.sc d hm').mono hsub
-  · intro d hm; show SfOk (ms.putFc1 id f).base sp' d; rw [putFc1_base]
+    rw [putFc1_sces_c1] at hm'; exact (hI.sc d hm').mono hsub
+  · intro d hm; show SfOk (ms.putFc1 id f).base sp' d; rw [putFc1_base_c1]
     have hm' : d ∈ (ms.putFc1 id f).sfes := hm
     rw [putFc1_sfes] at hm'; exact (hI.sf d hm').mono hsub
-  · intro d hm; show Fc1Ok (ms.putFc1 id f).base sp' d; rw [putFc1_base]
+  · intro d hm; show Fc1Ok (ms.putFc1 id f).base sp' d; rw [putFc1_base_c1]
     rcases putFc1_mem hI.struct hd hT f hm with h | h
     · exact (hI.fc1 d h).mono hsub
     · rw [h]; exact hok
-  · intro d hm; show Fc2Ok (ms.putFc1 id f).base sp' d; rw [putFc1_base]
+  · intro d hm; show Fc2Ok (ms.putFc1 id f).base sp' d; rw [putFc1_base_c1]
     have hm' : d ∈ (ms.putFc1 id f).v2fces := hm
     rw [putFc1_v2fces] at hm'; exact (hI.fc2 d hm').mono hsub
 
@@ -221,16 +221,16 @@ theorem putFc2_inv' {T} {ms : Mid} (hI : Inv T ms) (hd : TDisj T) {id : Id} (hT 
   have h0 := putFc2_struct hI.struct hd hT f hf
   constructor
   · exact h0.same rfl (fun k => by cases k <;> rfl)
-  · intro d hm; show ScOk (ms.putFc2 id f).base sp' d; rw [putFc2_base]
+  · intro d hm; show ScOk (ms.putFc2 id f).base sp' d; rw [putFc2_base_c1]
     have hm' : d ∈ (ms.putFc2 id f).sces := hm
-    rw [putFc2_sces] at hm'; exact (hI.sc d hm').mono hsub
-  · intro d hm; show SfOk (ms.putFc2 id f).base sp' d; rw [putFc2_base]
+    rw [putFc2_sces_c1] at hm'; exact (hI.sc d hm').mono hsub
+  · intro d hm; show SfOk (ms.putFc2 id f).base sp' d; rw [putFc2_base_c1]
     have hm' : d ∈ (ms.putFc2 id f).sfes := hm
     rw [putFc2_sfes] at hm'; exact (hI.sf d hm').mono hsub
-  · intro d hm; show Fc1Ok (ms.putFc2 id f).base sp' d; rw [putFc2_base]
+  · intro d hm; show Fc1Ok (ms.putFc2 id f).base sp' d; rw [putFc2_base_c1]
     have hm' : d ∈ (ms.putFc2 id f).fces := hm
     rw [putFc2_fces] at hm'; exact (hI.fc1 d hm').mono hsub
-  · intro d hm; show Fc2Ok (ms.putFc2 id f).base sp' d; rw [putFc2_base]
+  · intro d hm; show Fc2Ok (ms.putFc2 id f).base sp' d; rw [putFc2_base_c1]
     rcases putFc2_mem hI.struct hd hT f hm with h | h
     · exact (hI.fc2 d h).mono hsub
     · rw [h]; exact hok
